@@ -13,7 +13,7 @@ METHOD_SHAPES = [
     [("double", "alpha", [("ns::Other", "o", "ns::Other()")], True), ("ns::Other", "beta", [], True)],
 ]
 EXTRA_SHAPES = [([], []), ([("ns::Other*", "Make", [("size_t", "n", "0")])], []), ([], [("int", "count")]),
-                ([("This", "Create", [])], [("double", "val"), ("ns::Other", "other")])]
+                ([("This", "Create", [])], [("double", "budget_val"), ("ns::Other", "preset_other")])]      # names containing "get_" / "set_"
 N_CLASS_CODES = 2 * 3 * 4 * 4 * 4
 
 
